@@ -1,4 +1,5 @@
 import XrsVerif.Proofs.Bin
+import XrsVerif.Proofs.ILBinSem
 import XrsVerif.Proofs.Jenks
 import XrsVerif.Proofs.KSimp
 import XrsVerif.Gen.ClassifyFacts
@@ -562,5 +563,222 @@ example : Sorted (fun i => [1, 2, 4, (5 : Rat)].getD i 0) 4 :=
 -- the sample [0] of the raster [5, 0]: the fallback branch still classifies the maximum
 example : naturalBreaks Gen.cpuBinShape id [.fin 5, .fin 0] [0] 3 = .ok [.fin 1, .fin 0] [0, 5] := by decide +kernel
 example : naturalBreaks Gen.cpuBinShape id [.fin 5, .nan] [] 3 = .ok [.fin 0, .nan] [5] := by decide +kernel
+
+/-! ### the program generated from `_cpu_bin` (layer T3: `Gen.IL.cpuBin`, translated statement by statement from
+    /repo's current source) refines the model, so the clauses above hold for the *generated program*.
+
+    `F` is any number type (`[Fl F]`): the program only uses `Fl.lt`, `Fl.le`, `Fl.isfinite`, `Fl.nan`.
+    `WellFormed s rows cols nb nv`: the state holds a `rows x cols` raster (any shape, empty too), `nb` bins, `nv`
+    new values.  `nb + 1 <= fuel`: the `while` of the binary search needs at most `nb` iterations plus the failing
+    test (fuel is the interpreter's bound on `while` iterations, not part of the code). -/
+
+section generated
+open XrsVerif.IL XrsVerif.ILBin
+variable {F : Type} [Fl F]
+
+/-- the generated program is the composition of the blocks the refinement lemmas are about (re-checked against the
+    regenerated `Gen/IL.lean` on every run: any edit of `_cpu_bin` that changes its translation breaks this `rfl`) -/
+theorem generated_cpu_bin_blocks : Gen.IL.cpuBin.body = ILBin.prologue (.seq ILBin.yLoop .ret) ∧
+    Gen.IL.cpuBin.ok = true := ⟨rfl, rfl⟩
+
+/-- **the generated binary-search `while` returns the model's result**: entered like the program enters it
+    (`0 <= start`, `end < nbins`, `start <= end + 1`, `mid = (end + start) // 2`) with more fuel than `end - start + 1`
+    it ends normally -- not by fuel, not by an index error: `bins[mid]` is in range and `bins[mid - 1]` at `mid = 0`
+    wraps to the last bin exactly like the model's `getW` --, `mid` holds `Bin.loop` (for any model fuel
+    `n >= end - start + 1`), and only `start`, `end`, `mid` have changed -/
+theorem generated_bin_search_loop (nb n fuel : Nat) (s : State F) (hrun : s.ctl = .run)
+    (hs : s.shp "bins" = [nb]) (hl : (s.fa "bins").length = nb)
+    (h0 : 0 ≤ s.ienv "start") (h1 : s.ienv "end" < nb) (h2 : s.ienv "start" ≤ s.ienv "end" + 1)
+    (hm : s.ienv "mid" = (s.ienv "end" + s.ienv "start") / 2)
+    (hn : (s.ienv "end" - s.ienv "start" + 1).toNat ≤ n) (hf : n + 1 ≤ fuel) :
+    (exec fuel ILBin.whileS s).ctl = .run ∧
+    (exec fuel ILBin.whileS s).ienv "mid" =
+      Bin.loop (fun i => Fl.lt (getW Fl.nan (s.fa "bins") i) (s.fenv "val")) n (s.ienv "start") (s.ienv "end") ∧
+    SameButI ["start", "end", "mid"] s (exec fuel ILBin.whileS s) :=
+  while_refines nb n fuel s hrun hs hl h0 h1 h2 hm hn hf
+
+/-- **refinement**: for every raster, every `bins` of length >= 1 (NaN, unsorted, ±inf: whatever the comparisons
+    answer) and `new_values` at least as long, the generated program returns, `out` has the raster's shape and
+    holds the model cell `Bin.cellG` (first-bin test, last-bin test, `Bin.loop`, wrapped reads) of every cell; the
+    inputs are unchanged -/
+theorem generated_cpu_bin_refines (s : State F) (fuel rows cols nb nv : Nat) (hw : WellFormed s rows cols nb nv)
+    (hnb : 1 ≤ nb) (hnv : nb ≤ nv) (hf : nb + 1 ≤ fuel) :
+    let r := Gen.IL.cpuBin.run s fuel
+    r.ctl = .ret ∧ r.shp "out" = [rows, cols] ∧
+    r.fa "out" = (s.fa "data").map (cellG Fl.lt Fl.le Fl.isfinite Fl.nan (s.fa "bins") (s.fa "new_values")) ∧
+    r.fa "data" = s.fa "data" ∧ r.fa "bins" = s.fa "bins" ∧ r.fa "new_values" = s.fa "new_values" :=
+  cpuBin_refines s fuel rows cols nb nv hw.run hw.dshp hw.dlen hw.bshp hw.blen hw.nshp hw.nlen hnv hf (Or.inl hnb)
+
+/-- **first bin, for the generated program, over any number type**: if the bins are comparable with every finite
+    cell (`bins[i] < v` iff not `v <= bins[i]`: no NaN bin) and ascending as seen by `v <= ·`, the generated program
+    writes, for every finite cell, the new value of the *first* bin whose upper bound is `>=` the cell (NaN if there
+    is none), and NaN for every non-finite cell -/
+theorem generated_cpu_bin_first_bin (s : State F) (fuel rows cols nb nv : Nat) (hw : WellFormed s rows cols nb nv)
+    (hnb : 1 ≤ nb) (hnv : nb ≤ nv) (hf : nb + 1 ≤ fuel)
+    (htot : ∀ v ∈ s.fa "data", Fl.isfinite v = true → ∀ b ∈ s.fa "bins", Fl.lt b v = !Fl.le v b)
+    (hmono : ∀ v ∈ s.fa "data", Fl.isfinite v = true →
+      (s.fa "bins").Pairwise (fun a b => Fl.le v a = true → Fl.le v b = true)) :
+    let r := Gen.IL.cpuBin.run s fuel
+    r.ctl = .ret ∧ r.shp "out" = [rows, cols] ∧
+    r.fa "out" = (s.fa "data").map fun v =>
+      if Fl.isfinite v then
+        match (s.fa "bins").findIdx? (fun b => Fl.le v b) with
+        | some i => getW Fl.nan (s.fa "new_values") (i : Int)
+        | none => Fl.nan
+      else Fl.nan := by
+  obtain ⟨h1, h2, h3, _⟩ := generated_cpu_bin_refines s fuel rows cols nb nv hw hnb hnv hf
+  refine ⟨h1, h2, ?_⟩
+  rw [h3]
+  apply List.map_congr_left
+  intro v hv
+  unfold cellG
+  cases hfin : Fl.isfinite v with
+  | false => simp
+  | true =>
+    have hne : s.fa "bins" ≠ [] := by
+      intro h; have := hw.blen; rw [h] at this; simp at this; omega
+    rw [search_eq_findIdx Fl.lt Fl.le Fl.nan v (s.fa "bins") hne (htot v hv hfin) (hmono v hv hfin)]
+    cases (s.fa "bins").findIdx? (fun b => Fl.le v b) with
+    | none => simp
+    | some i =>
+      have : ((i : Int) > -1) := by omega
+      simp [this]
+
+/-- **the generated program is the model the reclassify theorems are about**: under any reading `e` of the number
+    type as extended values (`ExtSem`: the comparisons and the finiteness test are the IEEE ones), cell by cell
+    `out = cellS Gen.cpuBinShape` -/
+theorem generated_cpu_bin_is_model {K : Type} [LinearOrder K] (e : F → Ext K) (he : ExtSem e)
+    (s : State F) (fuel rows cols nb nv : Nat) (hw : WellFormed s rows cols nb nv)
+    (hnb : 1 ≤ nb) (hnv : nb ≤ nv) (hf : nb + 1 ≤ fuel) :
+    let r := Gen.IL.cpuBin.run s fuel
+    r.ctl = .ret ∧ r.shp "out" = [rows, cols] ∧
+    (r.fa "out").map e =
+      (s.fa "data").map fun v => cellS Gen.cpuBinShape ((s.fa "bins").map e) ((s.fa "new_values").map e) (e v) := by
+  obtain ⟨h1, h2, h3, _⟩ := generated_cpu_bin_refines s fuel rows cols nb nv hw hnb hnv hf
+  refine ⟨h1, h2, ?_⟩
+  rw [h3, List.map_map]
+  apply List.map_congr_left
+  intro v _
+  simp only [Function.comp_apply]
+  rw [cellG_sem e he, cellS_gen]
+
+/-- **reclassify's clause for the generated program**: ascending NaN-free bins (±inf allowed) of any length >= 1:
+    every finite cell gets the new value of the first bin whose upper bound is `>=` it, NaN if it is above the last
+    bin; NaN / ±inf cells give NaN -/
+theorem generated_reclassify_first_bin {K : Type} [LinearOrder K] (e : F → Ext K) (he : ExtSem e)
+    (s : State F) (fuel rows cols nb nv : Nat) (hw : WellFormed s rows cols nb nv)
+    (hnb : 1 ≤ nb) (hnv : nb ≤ nv) (hf : nb + 1 ≤ fuel) (hasc : ExtAscending ((s.fa "bins").map e)) :
+    let r := Gen.IL.cpuBin.run s fuel
+    r.ctl = .ret ∧ r.shp "out" = [rows, cols] ∧
+    (r.fa "out").map e = (s.fa "data").map fun v =>
+      match e v with
+      | .fin x =>
+        (match firstGEx ((s.fa "bins").map e) x with
+         | some i => getW .nan ((s.fa "new_values").map e) (i : Int)
+         | none => .nan)
+      | _ => .nan := by
+  obtain ⟨h1, h2, h3⟩ := generated_cpu_bin_is_model e he s fuel rows cols nb nv hw hnb hnv hf
+  refine ⟨h1, h2, ?_⟩
+  rw [h3]
+  apply List.map_congr_left
+  intro v _
+  have hne : (s.fa "bins").map e ≠ [] := by
+    intro h
+    have := congrArg List.length h
+    rw [List.length_map, hw.blen] at this; simp at this; omega
+  cases hev : e v with
+  | fin x => exact reclassify_spec _ _ hne hasc x
+  | nan => exact reclassify_nonfinite _ _ _ rfl
+  | ninf => exact reclassify_nonfinite _ _ _ rfl
+  | pinf => exact reclassify_nonfinite _ _ _ rfl
+
+/-- a raster without any finite cell never reads `bins`: all NaN, whatever `bins` is (empty too) -/
+theorem generated_cpu_bin_no_finite_cell (s : State F) (fuel rows cols nb nv : Nat)
+    (hw : WellFormed s rows cols nb nv) (hnv : nb ≤ nv) (hf : nb + 1 ≤ fuel)
+    (hnf : ∀ v ∈ s.fa "data", Fl.isfinite v = false) :
+    let r := Gen.IL.cpuBin.run s fuel
+    r.ctl = .ret ∧ r.shp "out" = [rows, cols] ∧ r.fa "out" = List.replicate (rows * cols) Fl.nan := by
+  obtain ⟨h1, h2, h3, _⟩ := cpuBin_refines s fuel rows cols nb nv hw.run hw.dshp hw.dlen hw.bshp hw.blen hw.nshp
+    hw.nlen hnv hf (Or.inr hnf)
+  refine ⟨h1, h2, ?_⟩
+  rw [h3, ← hw.dlen]
+  apply List.ext_getElem (by simp)
+  intro i hi _
+  simp only [List.getElem_map, List.getElem_replicate]
+  unfold cellG
+  rw [hnf _ (List.getElem_mem _)]
+  simp
+
+/-- **empty `bins`** (no bin list at all; the real code reads `bins[0]` of a zero-length array -- out of bounds, numba
+    does not check): the generated program stops with an index error at the first finite cell -/
+theorem generated_cpu_bin_empty_bins (s : State F) (fuel rows cols nv : Nat) (hw : WellFormed s rows cols 0 nv)
+    (hfin : ∃ v ∈ s.fa "data", Fl.isfinite v = true) :
+    (Gen.IL.cpuBin.run s fuel).ctl = .err "index" :=
+  cpuBin_no_bins s fuel rows cols nv hw.run hw.dshp hw.dlen hw.bshp hw.blen hw.nshp hw.nlen hfin
+
+/-- **the read `bins[mid - 1]` at `mid = 0`** (numba wraps a negative index once; ILang's `normIdx` and the model's
+    `getW` do the same): when the first bin is comparable with the value (`bins[0] < v` iff not `v <= bins[0]`, i.e.
+    `bins[0]` is not NaN) the search never evaluates a negative index -- its result is the same for *any* reading
+    `g` of `bins` that is right on the indices `>= 0`.  (With a NaN first bin the read happens and sees the last
+    bin; the cell then gets NaN or a bin `r` with `bins[r-1] < v`, as in the real code.) -/
+theorem generated_cpu_bin_no_wraparound (B : List F) (v : F) (hne : B ≠ [])
+    (h0 : Fl.lt (getW Fl.nan B 0) v = !Fl.le v (getW Fl.nan B 0))
+    (g : Int → F) (hg : ∀ i, 0 ≤ i → g i = getW Fl.nan B i) :
+    Bin.search Fl.lt Fl.le Fl.nan B v = Bin.searchP (fun i => Fl.lt (g i) v) (fun i => Fl.le v (g i)) B.length :=
+  search_no_wrap Fl.lt Fl.le Fl.nan B v h0 g hg hne
+
+end generated
+
+section generated_examples
+open XrsVerif.IL XrsVerif.ILBin
+attribute [local instance] ILBin.cmpFl
+
+-- non-vacuity, with ±inf: the generated program on a 2 x 3 raster over the comparison-only number type `Ext Int`
+example :
+    let s : State (Ext Int) := mkState 2 3 [.fin 16, .fin 15, .pinf, .fin 9, .nan, .fin 41]
+      [.fin 10, .fin 15, .fin 15, .pinf] [.fin 1, .fin 2, .fin 3, .fin 4]
+    (Gen.IL.cpuBin.run s 5).ctl = .ret ∧
+    (Gen.IL.cpuBin.run s 5).fa "out" = [.fin 4, .fin 2, .nan, .fin 1, .nan, .fin 4] := by
+  intro s
+  have hw : WellFormed s 2 3 4 4 := mkState_wf 2 3 _ _ _ rfl
+  have hasc : ExtAscending ((s.fa "bins").map id) := by
+    rw [List.map_id, mkState_bins]; exact ⟨by decide, by decide⟩
+  obtain ⟨h1, _, h3⟩ := generated_reclassify_first_bin id (cmpFl_sem Int) s 5 2 3 4 4 hw (by omega) (by omega)
+    (by omega) hasc
+  refine ⟨h1, ?_⟩
+  rw [List.map_id, mkState_data, mkState_bins, mkState_newv] at h3
+  rw [h3]; decide
+
+-- empty bins: index error as soon as there is a finite cell; all NaN when there is none
+example : (Gen.IL.cpuBin.run (mkState 1 2 [Ext.nan, .fin (3 : Int)] [] []) 1).ctl = .err "index" :=
+  generated_cpu_bin_empty_bins _ 1 1 2 0 (mkState_wf 1 2 _ _ _ rfl) ⟨.fin 3, by simp, rfl⟩
+example : (Gen.IL.cpuBin.run (mkState 1 2 [Ext.nan, (.pinf : Ext Int)] [] []) 1).fa "out" = [.nan, .nan] :=
+  (generated_cpu_bin_no_finite_cell _ 1 1 2 0 0 (mkState_wf 1 2 _ _ _ rfl) (by omega) (by omega)
+    (by intro v hv; simp at hv; rcases hv with rfl | rfl <;> rfl)).2.2
+-- an empty raster
+example : (Gen.IL.cpuBin.run (mkState 0 3 ([] : List (Ext Int)) [.fin 1] [.fin 7]) 2).fa "out" = [] :=
+  (generated_cpu_bin_refines _ 2 0 3 1 1 (mkState_wf 0 3 _ _ _ rfl) (by omega) (by omega) (by omega)).2.2.1
+
+end generated_examples
+
+section generated_nv
+open XrsVerif.IL XrsVerif.ILBin
+local instance : Trig ℚ := ⟨id, id, fun a _ => a, id, id, id, id⟩
+
+-- non-vacuity of the law hypotheses of `generated_cpu_bin_first_bin` at `NV ℚ` (NaN = `none`)
+example :
+    let s : State (NV ℚ) := mkState 1 3 [some 12, none, some 99] [some 10, some (25 / 2)] [some 0, some 1]
+    (Gen.IL.cpuBin.run s 3).fa "out" = [some 1, none, none] := by
+  intro s
+  have hw : WellFormed s 1 3 2 2 := mkState_wf 1 3 _ _ _ rfl
+  have hsem := nvRead_sem (K := ℚ)
+  have hasc : ExtAscending ((s.fa "bins").map nvRead) := by
+    rw [mkState_bins]; exact ⟨by decide +kernel, by decide +kernel⟩
+  obtain ⟨_, _, h3⟩ := generated_cpu_bin_first_bin s 3 1 3 2 2 hw (by omega) (by omega) (by omega)
+    (fun v _ hv => sem_total nvRead hsem _ hasc v hv) (fun v _ hv => sem_mono nvRead hsem _ hasc v hv)
+  rw [mkState_data, mkState_bins, mkState_newv] at h3
+  rw [h3]; decide +kernel
+
+end generated_nv
 
 end XrsVerif.C12
